@@ -143,6 +143,10 @@ func updateListAndMap(list []types.WorkReportHash, newItems []types.WorkReportHa
 			itemMap[item] = true
 		}
 	}
+	// the judgement sets are sets: keep them in ascending order like the offenders
+	sort.Slice(result, func(i, j int) bool {
+		return bytes.Compare(result[i][:], result[j][:]) < 0
+	})
 	return result
 }
 
